@@ -171,6 +171,16 @@ func expand(in inp, seed int64) []byte {
 			out = append(out, byte(c))
 			prev = c
 		}
+	case "zeros":
+		// n non-zero bytes except for a block of B zero bytes at offset A (ASCII85 writes an aligned group of four zero bytes as 'z')
+		rng := rand.New(rand.NewSource(seed*31 + int64(n)*17 + int64(in.A)*5 + int64(in.B)))
+		for i := 0; i < n; i++ {
+			if i >= in.A && i < in.A+in.B {
+				out = append(out, 0)
+			} else {
+				out = append(out, byte(1+rng.Intn(255)))
+			}
+		}
 	case "runs":
 		// n blocks: a run of A equal bytes followed by B pairwise different bytes
 		for k := 0; k < n; k++ {
@@ -760,7 +770,7 @@ func fileRoundTrip(batch []*rec15, data [][]byte) {
 
 type rec16 struct {
 	ID   int     `json:"id"`
-	API  string  `json:"api"`  // "F" filter.NewFilter(...).Decode/DecodeLength, "SD" StreamDict.DecodeLengthWithLimit, "CFG" Configuration.Limits while reading a file
+	API  string  `json:"api"`  // "F" filter.NewFilter(...).Decode/DecodeLength, "SD" StreamDict.DecodeLengthWithLimit on a fresh object, "SDH" a later call of a history on one object, "CFG" Configuration.Limits while reading a file
 	Mode string  `json:"mode"` // "limit" (unbounded decode under limit arg) | "bounded" (DecodeLength arg)
 	Pipe []stage `json:"pipe"`
 	Ds   []int   `json:"ds"` // decoded output length of every stage (unlimited decode), last = D
@@ -771,6 +781,7 @@ type rec16 struct {
 	Got  []int   `json:"got"`
 	Full []int   `json:"full"`
 	Err  string  `json:"err"`
+	Prev []int   `json:"prev"` // api "SDH": the calls made before on the SAME StreamDict object, flattened (0 = bounded | 1 = limit, argument)
 }
 
 // predicted builds whole rows of predictor-encoded data from arbitrary bytes (valid PNG filter types).
@@ -848,7 +859,7 @@ func runC16(casesPath, outPath string, seed int64, maxD int) {
 		put := func(api, mode string, arg int, o outcome) {
 			nrec++
 			r := rec16{ID: ncases, API: api, Mode: mode, Pipe: c.Pipe, Ds: ds, D: D, Arg: arg, Kind: o.kind(), Len: len(o.data),
-				Got: ints(o.data), Full: ints(full), Err: o.msg()}
+				Got: ints(o.data), Full: ints(full), Err: o.msg(), Prev: []int{}}
 			kinds[mode+"/"+api+"/"+r.Kind]++
 			if r.Kind != "ok" || (r.Len > 0 && r.Len < D) {
 				distinct[fmt.Sprintf("%d/%s/%s/%d", ncases, api, mode, arg)] = true
@@ -920,6 +931,69 @@ func runC16(casesPath, outPath string, seed int64, maxD int) {
 				put("F", "bounded", n, guard(func() (io.Reader, error) { return f.DecodeLength(reader(enc, false), int64(n)) }))
 			}
 			put("SD", "bounded", n, sdDecode(int64(n), filter.DefaultMaxDecodeBytes))
+		}
+		// call histories on ONE stream object: every later call is judged like a call on a fresh object
+		type call struct {
+			mode string // "bounded": DecodeLength(arg) | "limit": Decode() for arg 0, DecodeWithLimit(arg) otherwise
+			arg  int
+		}
+		history := func(calls ...call) {
+			sd := newSD(c.Pipe)
+			sd.Raw = append([]byte{}, enc...)
+			prev := []int{}
+			for i, cl := range calls {
+				o := guard(func() (io.Reader, error) {
+					var b []byte
+					var err error
+					switch {
+					case cl.mode == "bounded":
+						b, err = sd.DecodeLength(int64(cl.arg))
+					case cl.arg == 0:
+						if err = sd.Decode(); err == nil {
+							b = sd.Content
+						}
+					default:
+						if err = sd.DecodeWithLimit(int64(cl.arg)); err == nil {
+							b = sd.Content
+						}
+					}
+					if err != nil {
+						return nil, err
+					}
+					return bytes.NewReader(b), nil
+				})
+				if i > 0 {
+					nrec++
+					r := rec16{ID: ncases, API: "SDH", Mode: cl.mode, Pipe: c.Pipe, Ds: ds, D: D, Arg: cl.arg, Kind: o.kind(), Len: len(o.data),
+						Got: ints(o.data), Full: ints(full), Err: o.msg(), Prev: append([]int{}, prev...)}
+					kinds[cl.mode+"/SDH/"+r.Kind]++
+					distinct[fmt.Sprintf("%d/SDH/%v/%s/%d", ncases, prev, cl.mode, cl.arg)] = true
+					w.Put(r)
+				}
+				m := 0
+				if cl.mode == "limit" {
+					m = 1
+				}
+				prev = append(prev, m, cl.arg)
+			}
+		}
+		lowLimit := D - 1 // a limit below the decoded length (if there is one) ...
+		if lowLimit < 1 {
+			lowLimit = 1
+		}
+		for n := 0; n <= D+1; n++ {
+			history(call{"bounded", n}, call{"limit", 0})
+			switch n % 3 {
+			case 0:
+				history(call{"bounded", n}, call{"limit", lowLimit}, call{"limit", D + 1})
+			case 1:
+				history(call{"bounded", n}, call{"bounded", D}, call{"bounded", n})
+			default:
+				history(call{"bounded", n}, call{"bounded", n + 1}, call{"limit", 0})
+			}
+		}
+		for _, n := range []int{0, (D + 1) / 2, D, D + 1} {
+			history(call{"limit", 0}, call{"bounded", n})
 		}
 		return nil
 	})
